@@ -61,6 +61,7 @@ pub struct Report {
     pub unsupported_paths: u64,
     pub unsupported_msgs: Vec<String>,
     pub diverged_runs: u64,
+    pub unrealised_flips: u64,
     pub pending_work: u64,
     pub runs: u64,
     pub queries: u64,
@@ -158,6 +159,17 @@ pub struct WorkItem {
 }
 type Work = WorkItem;
 
+fn prefix_matches(a: &Arena, bound: usize, want: u64) -> bool {
+    if bound > a.trace.len() {
+        return false;
+    }
+    let mut h = 0u64;
+    for ev in &a.trace[..bound] {
+        h = mix(h, mix(a.bools[ev.cond as usize].2, ev.outcome as u64 + 2 * (ev.kind == EvKind::Assume) as u64));
+    }
+    h == want
+}
+
 /// failures of a concrete run: names of checks that are false, or the panic
 fn concrete_failures(out: &RunOut) -> Vec<String> {
     let mut v: Vec<String> = out.arena.bool_failures.clone();
@@ -200,7 +212,18 @@ pub fn explore(cfg: &Config, sym: &dyn Fn(), native: Option<&dyn Fn()>) -> Repor
             break;
         }
         rep.runs += 1;
-        let out = run_once(true, &w.inputs, sym);
+        let mut out = run_once(true, &w.inputs, sym);
+        // A run that does not follow the prefix it was generated for: the code under test is not a
+        // function of the inputs alone (std HashMap iteration order) or an inexact term rounded
+        // across the branch.  Retry a few times; if the requested path never shows, it is counted.
+        if w.bound > 0 {
+            let mut tries = 0;
+            while tries < 4 && !prefix_matches(&out.arena, w.bound, w.prefix_hash) {
+                out = run_once(true, &w.inputs, sym);
+                tries += 1;
+                rep.runs += 1;
+            }
+        }
         let a = &out.arena;
         let inputs_used: Vec<i64> = (0..a.vars.len()).map(|i| {
             let v = &a.vars[i];
@@ -235,6 +258,10 @@ pub fn explore(cfg: &Config, sym: &dyn Fn(), native: Option<&dyn Fn()>) -> Repor
         if complete {
             let sig = mix(h, match &out.abort { None => 1, Some(Abort::DivByZero) => 2, Some(Abort::SqrtNegative) => 3, Some(_) => 4 });
             is_new_path = seen_paths.insert(sig);
+        }
+        if bound == 0 && w.bound > 0 && !is_new_path {
+            // the path the solver asked for was not realised and nothing new was seen instead
+            rep.unrealised_flips += 1;
         }
         if assume_failed {
             rep.assume_rejected_runs += 1;
@@ -421,7 +448,7 @@ pub fn explore(cfg: &Config, sym: &dyn Fn(), native: Option<&dyn Fn()>) -> Repor
     rep.solver_time_s = solver.time_s;
     rep.wall_s = t0.elapsed().as_secs_f64();
     rep.locations = locs.iter().map(|(f, l)| format!("{}:{}", f, l)).collect();
-    rep.exhaustive = !budget_hit && (work.is_empty() || frontier_reached) && rep.undecided_flips == 0 && rep.violations.is_empty() && rep.solver_errors.is_empty() && rep.unsupported_paths == 0;
+    rep.exhaustive = !budget_hit && (work.is_empty() || frontier_reached) && rep.undecided_flips == 0 && rep.unrealised_flips == 0 && rep.violations.is_empty() && rep.solver_errors.is_empty() && rep.unsupported_paths == 0;
     rep
 }
 
@@ -431,7 +458,7 @@ impl Report {
     pub fn merge(&mut self, o: &Report) {
         self.exhaustive &= o.exhaustive;
         macro_rules! add { ($($f:ident),*) => { $( self.$f += o.$f; )* } }
-        add!(paths, paths_with_obligations, assume_rejected_runs, div0_paths, sqrt_neg_paths, unsupported_paths, diverged_runs, pending_work, runs, queries, sat, unsat, unknown, undecided_flips, undecided_obligations, obligations_checked, obligations_by_solver, obligations_on_path, solver_time_s, concretised, inexact, exact_terms, rounded_terms, uf_terms, rounded_compares, uf_compares, signed_zero, witness_validated, witness_mismatch, shards);
+        add!(unrealised_flips, paths, paths_with_obligations, assume_rejected_runs, div0_paths, sqrt_neg_paths, unsupported_paths, diverged_runs, pending_work, runs, queries, sat, unsat, unknown, undecided_flips, undecided_obligations, obligations_checked, obligations_by_solver, obligations_on_path, solver_time_s, concretised, inexact, exact_terms, rounded_terms, uf_terms, rounded_compares, uf_compares, signed_zero, witness_validated, witness_mismatch, shards);
         self.wall_s = self.wall_s.max(o.wall_s);
         self.max_trace_len = self.max_trace_len.max(o.max_trace_len);
         self.n_vars = self.n_vars.max(o.n_vars);
